@@ -242,7 +242,25 @@ Proof.
 Qed.
 Print Assumptions target_path_shape.
 
-(* ---------- every body produced under the guard comes from below the served directory ---------- *)
+(* ---------- the guard of fix b366efe (no ".." segment) implies that the path does not climb ---------- *)
+Lemma no_dotdot_climbs_aux cs : existsb is_dotdot cs = false -> forall d, climbs_aux d cs = false.
+Proof.
+  induction cs as [|c cs IH]; intros H d; cbn [climbs_aux]; [reflexivity|].
+  cbn [existsb] in H. apply orb_false_iff in H as [Hc Hr]. rewrite Hc.
+  destruct (is_skip c); apply IH, Hr.
+Qed.
+Lemma has_dotdot_comps P : has_dotdot P = false -> existsb is_dotdot (comps P) = false.
+Proof.
+  unfold has_dotdot. generalize (comps P) as cs. induction cs as [|c cs IH]; intro H; [reflexivity|].
+  cbn [flat_map existsb] in *. rewrite existsb_app in H. apply orb_false_iff in H as [Hc Hr].
+  rewrite (IH Hr), orb_false_r.
+  destruct (is_dotdot c) eqn:Ed; [|reflexivity].
+  unfold is_dotdot in Ed. apply beqs_eq in Ed. subst c. vm_compute in Hc. discriminate.
+Qed.
+Lemma no_dotdot_no_climb P : has_dotdot P = false -> climbs P = false.
+Proof. intro H. unfold climbs. apply no_dotdot_climbs_aux, has_dotdot_comps, H. Qed.
+
+(* ---------- every body produced comes from below the served directory ---------- *)
 Definition prov_ok (fs : fsys) (c : crange) : Prop :=
   match c_prov c with FromFile q via => via = true \/ prefixb_names (cwd fs) q = true | _ => True end.
 
@@ -264,12 +282,12 @@ Proof.
 Qed.
 
 Theorem guarded_get_content_range_list fs u rv l :
-  cwd_ok fs -> get_content_range_list true fs u rv = SOk l -> Forall (prov_ok fs) l.
+  cwd_ok fs -> get_content_range_list fs u rv = SOk l -> Forall (prov_ok fs) l.
 Proof.
   intros Hcw H. unfold get_content_range_list in H.
   destruct (path_or_panic u) as [P| |] eqn:EP; try discriminate.
   pose proof (target_path_shape _ _ EP) as Sh.
-  cbn [andb] in H. destruct (climbs P) eqn:Ec; [discriminate|].
+  destruct (has_dotdot P) eqn:Eh; [discriminate|]. pose proof (no_dotdot_no_climb _ Eh) as Ec.
   destruct (metadata fs (cwd_str fs ++ P)) as [[| |]|]; try discriminate; try (inversion H; constructor).
   destruct (is_symlink fs (cwd_str fs ++ P)) as [[|]|]; destruct (file_len fs (cwd_str fs ++ P)) as [L|]; try discriminate.
   - (* through the owner's symlink *)
@@ -286,7 +304,7 @@ Proof.
 Qed.
 
 Theorem C01_guarded_static fs r l :
-  cwd_ok fs -> process_static true fs r = SOk l -> Forall (prov_ok fs) l.
+  cwd_ok fs -> process_static fs r = SOk l -> Forall (prov_ok fs) l.
 Proof.
   intros Hcw H. unfold process_static in H.
   destruct (path_or_panic (uri r)) as [P| |]; try discriminate.
